@@ -1298,6 +1298,72 @@ def eval_determinism(out, h, drv, base, rng, dcases, stats, findings=None):
             stats["traces"] += len(obs)
 
 
+# ------------------------------------------------------------------ (2b) many package files in ONE directory, race detector
+def eval_wide(out, base, rng, stats, n_ws, reps):
+    """Directories with 6-10 package files (BUILD.json, BUILD.yaml, Makefile, several *.grog.sh): every file but the first
+    MERGES into the package the first registered, so several workers are in the merge of one package at the same time.
+    Loaded `reps` times with 16 workers by a harness built with the Go race detector, and once with 1 worker: every load must
+    give the 1-worker answer (a label declared by two of the files: always rejected), no crash, and the race detector silent."""
+    try:
+        hr = vlib.build_harness("loader", extra_overlay=INJECT, race=True)
+        raced = True
+    except vlib.HarnessUnavailable as e:
+        out.notes.append("wide-directory stage: race-detector build unavailable (%s); run without it" % str(e)[-200:])
+        hr = vlib.build_harness("loader", extra_overlay=INJECT)
+        raced = False
+    for k in range(n_ws):
+        root = os.path.join(base, "wide%d" % k)
+        files = []
+        mk_t = lambda nm: {"name": nm, "command": "echo %s" % nm}
+        files.append(("w", "BUILD.json", json.dumps({"targets": [mk_t("j0"), mk_t("j1")]})))
+        files.append(("w", "BUILD.yaml", "targets:\n  - name: y0\n    command: echo y0\n"))
+        files.append(("w", "Makefile", "# @grog\n# name: m0\nm0:\n\techo m0\n"))
+        nscripts = 4 + rng.below(5)
+        names = ["s%d" % i for i in range(nscripts)]
+        dup = rng.chance(1, 3)
+        if dup:
+            names[-1] = names[0]      # the same label declared by two scripts
+        for i, nm in enumerate(names):
+            files.append(("w", "f%d.grog.sh" % i, "#!/bin/sh\n# @grog\n# name: %s\necho %s\n" % (nm, nm)))
+        if rng.chance(1, 2):
+            files.append((".", "BUILD.json", json.dumps({"targets": [mk_t("r0")]})))
+            files.append((".", "r1.grog.sh", "# @grog\n# name: r1\necho r1\n"))
+            files.append((".", "r2.grog.sh", "# @grog\n# name: r2\necho r2\n"))
+        for pth, fn, txt in files:
+            write_file(os.path.join(root, pth, fn), txt)
+        write_file(os.path.join(root, "grog.toml"), "")
+        lines = ["load\t%s\t1" % hx(root)] + ["load\t%s\t16" % hx(root)] * reps
+        rc, outl, err = vlib.run_lines(hr, lines)
+        stats["wide_loads"] = stats.get("wide_loads", 0) + len(outl)
+        case = {"files": [[a, f, t] for a, f, t in files], "duplicate_label": dup, "loads": "1 worker once, 16 workers x %d" % reps}
+        if "DATA RACE" in err:
+            i0 = err.index("DATA RACE")
+            out.violation("data race in LoadPackages on a directory with %d package files (16 workers): the loaded graph depends on the "
+                          "interleaving of two merges into one package: %s" % (len([f for f in files if f[0] == "w"]),
+                                                                              " ".join(err[i0:i0 + 600].split())[:400]),
+                          dict(case, race_report=err[max(0, i0 - 40):i0 + 3000]))
+            continue
+        if len(outl) < len(lines):
+            out.violation("LoadPackages crashed on a directory with many package files (load %d of %d): %s" % (
+                len(outl), len(lines), " ".join(err[-400:].split())), dict(case, stderr=err[-3000:]))
+            continue
+        ref = load_projection(outl[0])
+        want = "reject" if dup else "ok"
+        if ref[0] != want:
+            out.violation("a directory whose files declare %s is %s by LoadPackages with 1 worker" % (
+                "one label twice" if dup else "distinct labels", ref[0]), dict(case, observed=list(ref)))
+            continue
+        bad = [i for i, l in enumerate(outl[1:]) if load_projection(l) != ref]
+        if bad:
+            out.violation("the loaded graph depends on the worker count: load %d with 16 workers gives %s, 1 worker gives %s" % (
+                bad[0], diff_hint(load_projection(outl[1 + bad[0]])), diff_hint(ref)),
+                dict(case, observed_1=list(ref), observed_16=list(load_projection(outl[1 + bad[0]]))))
+            continue
+        stats["wide_ok"] = stats.get("wide_ok", 0) + 1
+        shutil.rmtree(root, ignore_errors=True)
+    stats["wide_race_detector"] = raced
+
+
 # ------------------------------------------------------------------ (4) CLI
 PANIC_RE = re.compile(r"panic:|goroutine \d+ \[|runtime error|fatal error:")
 
@@ -1592,6 +1658,7 @@ def run(out, tier):
         eval_determinism(out, h, drv, base, rng, dcases, st, findings)
         samples.append({"part": "determinism", "files": [[p, fn, txt[:200]] for p, fn, txt in dcases[0]["files"]],
                         "loads": ["%s creation order, num_workers=%d" % (t_, w_) for t_ in ("sorted", "shuffled") for w_ in WORKERS]})
+        eval_wide(out, base, rng, st, 6 * vol, 12 if tier == "quick" else 60)
     corrupt_for_cli += [("Makefile", b"# @grog\nfoo:\n\techo hi\n", "F1-input"), ("BUILD.json", b'{"targets": [null]}', "F4-input"),
                         ("BUILD.yaml", b"aliases:\n  - ~\n", "F4-input"), ("BUILD.json", b"{", "error"),
                         ("BUILD.yaml", b"targets: [", "error"), ("BUILD.star", b"target(", "error")]
@@ -1603,7 +1670,7 @@ def run(out, tier):
     pool.shutdown()
     judge_hang_probe(out, hang_box, findings, st)
 
-    evaluations = st["xformat_loads"] + st["scanner_cases"] + st["robust_cases"] + st["det_loads"] + st["cli_runs"]
+    evaluations = st["xformat_loads"] + st["scanner_cases"] + st["robust_cases"] + st["det_loads"] + st["cli_runs"] + st.get("wide_loads", 0)
     out.cov.update({
         "evaluations": evaluations,
         "distinct_nontrivial": len(st["nontrivial"]),
@@ -1623,6 +1690,8 @@ def run(out, tier):
             "robustness": {"cases": st["robust_cases"], "outcomes": st["robust_outcomes"], "known": st["robust_known"],
                            "hangs_reexamined": st["hangs_reexamined"]},
             "determinism": {"workspaces": st["det_cases"], "loads": st["det_loads"], "outcomes": st["det_outcomes"], "workers": list(WORKERS)},
+            "wide_directories": {"loads": st.get("wide_loads", 0), "workspaces_all_equal": st.get("wide_ok", 0),
+                                 "race_detector": st.get("wide_race_detector"), "shape": "6-10 package files in one directory, 16 workers"},
             "cli": {"runs": st["cli_runs"], "format_agreement": st["cli_outcomes"], "corrupt_inprocess_to_cli": st["cli_corrupt"],
                     "known": st["cli_known"]},
             "hang_probe": {k: (v if not isinstance(v, tuple) else list(v)) for k, v in hang_box.items()},
